@@ -273,6 +273,42 @@ static const char *cur_name(void) {
 }
 #define nm cur_name()
 
+/* level "st128": the tracer keeps 128 frames per stack (the documented maximum) and every allocating call is made from
+ * the bottom of a 100-deep call chain, so that a backtrace really has that many frames to deliver (added after a seeded
+ * change that capped the scratch array at 64 frames while still asking for frames_per_stack) */
+struct deep_req {
+    int kind; /* 0 acquire, 1 calloc, 2 realloc */
+    size_t a, b;
+    void **pp;
+    void *ret;
+    int rc;
+};
+static int g_deep_depth;
+static __attribute__((noinline)) void deep_call(volatile int n, struct deep_req *r) {
+    if (n > 0) {
+        deep_call(n - 1, r);
+        __asm__ volatile("" ::: "memory"); /* no tail call: every level keeps its frame */
+        return;
+    }
+    if (r->kind == 0) r->ret = aws_mem_acquire(tr, r->a);
+    else if (r->kind == 1) r->ret = aws_mem_calloc(tr, r->a, r->b);
+    else r->rc = aws_mem_realloc(tr, r->pp, r->a, r->b);
+}
+static void *h_acquire(size_t n) {
+    struct deep_req r = {.kind = 0, .a = n};
+    deep_call(g_deep_depth, &r);
+    return r.ret;
+}
+static void *h_calloc(size_t n, size_t sz) {
+    struct deep_req r = {.kind = 1, .a = n, .b = sz};
+    deep_call(g_deep_depth, &r);
+    return r.ret;
+}
+static int h_realloc(void **pp, size_t o, size_t n) {
+    struct deep_req r = {.kind = 2, .a = o, .b = n, .pp = pp};
+    deep_call(g_deep_depth, &r);
+    return r.rc;
+}
 static void m_apply(int op) {
     cur_op = op;
     if (op < OP_DUMP) {
@@ -280,7 +316,7 @@ static void m_apply(int op) {
         bool is_calloc = op >= OP_CAL;
         int i = is_calloc ? op - OP_CAL : op;
         size_t size = is_calloc ? CN[i] * CS[i] : SZ[i];
-        uint8_t *p = (uint8_t *)(is_calloc ? aws_mem_calloc(tr, CN[i], CS[i]) : aws_mem_acquire(tr, size));
+        uint8_t *p = (uint8_t *)(is_calloc ? h_calloc(CN[i], CS[i]) : h_acquire(size));
         ESX_CHECK(p != NULL, "null-result", "%s returned NULL", nm);
         if (esx_failed) return;
         ESX_CHECK(galloc_is_live(p), "block-not-live", "%s returned %s", nm, "a pointer that is not a live block of the wrapped allocator");
@@ -330,7 +366,7 @@ static void m_apply(int op) {
     size_t osz = oldp ? sl[k].size : 0;
     void *p = oldp;
     aws_reset_error();
-    int rc = aws_mem_realloc(tr, &p, osz, nsz);
+    int rc = h_realloc(&p, osz, nsz);
     ESX_CHECK(rc == AWS_OP_SUCCESS, "realloc-result", "%s (old size %zu) returned %d, error %d", nm, osz, rc, aws_last_error());
     if (esx_failed) return;
     if (nsz == 0) {
@@ -506,9 +542,10 @@ static struct esx_model model = {
 };
 
 static void set_cfg(int lv, int rmode, int wcalloc) {
-    static const char *lvn[4] = {"none", "bytes", "st1", "st8"};
+    static const char *lvn[5] = {"none", "bytes", "st1", "st8", "st128"};
     g_cfg.level = lv == 0 ? AWS_MEMTRACE_NONE : lv == 1 ? AWS_MEMTRACE_BYTES : AWS_MEMTRACE_STACKS;
-    g_cfg.frames = lv == 2 ? 1 : lv == 3 ? 8 : 0;
+    g_cfg.frames = lv == 2 ? 1 : lv == 3 ? 8 : lv == 4 ? 128 : 0;
+    g_deep_depth = lv == 4 ? 100 : 0;
     g_cfg.rmode = rmode;
     g_cfg.wcalloc = wcalloc;
     snprintf(g_cfg.name, sizeof(g_cfg.name), "ts-%s-r%d-c%d", lvn[lv], rmode, wcalloc);
@@ -524,9 +561,10 @@ int main(int argc, char **argv) {
     for (int i = 1; i + 1 < argc; ++i) /* spec.py: the Debug-build pass of the thorough tier uses 3 slots */
         if (!strcmp(argv[i], "--slots")) NS = atoi(argv[i + 1]) == 4 ? 4 : 3;
     int rc = 0;
-    for (int lv = 0; lv < 4; ++lv)
+    for (int lv = 0; lv < 5; ++lv)
         for (int rmode = 0; rmode < 3; ++rmode)
             for (int wc = 0; wc < 2; ++wc) {
+                if (lv == 4 && (rmode != 0 || wc != 0) && !v_thorough()) continue; /* quick: one st128 configuration */
                 set_cfg(lv, rmode, wc);
                 if (v_replay_token) {
                     if (esx_token_is_for(v_replay_token, g_cfg.name)) rc |= esx_replay(&model, v_replay_token);
